@@ -663,6 +663,8 @@ async def _run(ctx):
         k = r.choice([1, 2, 3, 5, 8, 13, 40])
         if r.random() < 0.05 and (tier != "quick" or len(s + tail) <= 800):
             cuts = tuple(range(1, len(s + tail)))     # byte by byte
+        elif r.random() < 0.08:
+            cuts = ()                                 # everything in one read
         else:
             cuts = rand_cuts(r, s + tail, k)
         cases.append((ms, s + tail, cuts))
@@ -681,6 +683,46 @@ async def _run(ctx):
                  sample=dict(stream="B", stream_len=len(s), cuts=list(cuts)[:12], delivered=len(ms)) if cov.evaluations % 997 == 0 else None,
                  stream="B-random-multicut", messages=len(ms), n_cuts=min(len(cuts), 50) if len(cuts) < 50 else "bytewise",
                  framing="+".join(sorted({m[2] for m in ms})), body_len=max(len(m[1][5]) for m in ms))
+
+    # ---- B2: large messages (8 KiB..64 KiB bodies, fixed-length and chunked) delivered whole, in 16 KiB / 8 KiB reads and
+    #          cut around the end of the header block; alone, behind a small event, in front of a small message.
+    #          (asyncio hands up to 256 KiB to one data_received on the plain connection.)
+    r = rng(seed, "c07large")
+    sizes = [8193, 16384, 40000] if tier == "quick" else [8100, 8192, 8193, 9000, 16384, 20000, 40000, 65535, 65536, 100000]
+    small_ev = render("E", 200, "OK", [], "cl", b"{\"a\":1}", fr_name="Content-Length")
+    small_nb = render("H", 204, "No Content", [], "none", b"")
+    lcases = []
+    for n in sizes:
+        body = bytes((i * 7 + n) & 0xFF for i in range(n))
+        bigs = [render("H", 200, "OK", [("Content-Type", ": ", "application/hap+json")], "cl", body, fr_name="Content-Length"),
+                render("H", 200, "OK", [("Content-Type", ": ", "application/hap+json")], "chunked", body,
+                       chunks=[4096] * (n // 4096) + ([n % 4096] if n % 4096 else []), hexfmt="%x"),
+                render("E", 200, "OK", [], "chunked", body, chunks=[n], hexfmt="%X", fr_name="transfer-encoding")]
+        if tier == "quick":
+            bigs = bigs[: 2 if n != 16384 else 3]
+        for big in bigs:
+            for shape in ([big], [small_ev, big], [big, small_nb], [small_nb, big, small_ev]):
+                if tier == "quick" and len(shape) == 3 and n != 8193:
+                    continue
+                s = b"".join(m[0] for m in shape)
+                start = sum(len(m[0]) for m in shape[: shape.index(big)])
+                hend = start + big[0].find(b"\r\n\r\n") + 4                     # first body byte of the large message
+                segl = [(), tuple(range(16384, len(s), 16384)), tuple(range(8192, len(s), 8192)), (hend,), (hend - 1,),
+                        (hend + 1,), (hend - 2, min(len(s) - 1, hend + 8192)), (8193,), (1,), (len(s) - 1,)]
+                if start:
+                    segl += [(start,), (start - 1,)]
+                for cuts in segl:
+                    cuts = tuple(sorted({c for c in cuts if 0 < c < len(s)}))
+                    lcases.append((shape, s, cuts))
+    lines = ["feed " + " ".join(hx(p) for p in split(s, cuts)) for ms, s, cuts in lcases]
+    answers = par_batch(drv, lines)
+    for (ms, s, cuts), ans in zip(lcases, answers):
+        want = canon_msgs("run", [m[1] for m in ms])
+        check_wf(ms, s, cuts, impl.run(split(s, cuts)), want, model_canon(ans))
+        cov.case("L" + str(len(s)) + ms[-1][2] + repr(cuts) + str(len(ms)), True,
+                 sample=dict(stream="B2", stream_len=len(s), cuts=list(cuts)[:6], delivered=len(ms)) if len(cuts) == 1 and len(ms) == 2 and cov.evaluations % 7 == 0 else None,
+                 stream="B2-large", messages=len(ms), large_read=max(len(p) for p in split(s, cuts)) // 8192 * 8192,
+                 large_body=max(len(m[1][5]) for m in ms), framing="+".join(m[2] for m in ms))
 
     # ---- C: mutated streams: all single cuts when short, random cuts otherwise
     r = rng(seed, "c07mut")
